@@ -184,6 +184,17 @@ def cmp_matrix(ctx, fn, size, impl_rows, model_field):
     return False
 
 
+def guarded(ctx, fam, size, body):
+    """run the checks of one lattice size; an exception escaping from the implementation on a valid size is itself a
+    concrete failing input"""
+    import traceback
+    try:
+        body()
+    except Exception as e:  # noqa
+        ctx.violation(fam + '-raises', 'the implementation raised %s on a valid lattice size' % exc_class(e),
+                      {'family': fam, 'size': list(size), 'error': repr(e)[:300], 'trace': traceback.format_exc()[-900:]})
+
+
 def css_split(S):
     """rows of S as (type, support mask); None if some row mixes X and Z"""
     n = S.shape[1] // 2
@@ -276,8 +287,10 @@ def distance_search(ctx, fam, size, code):
             if normal and nontriv and (lightest is None or w < lightest):
                 lightest = w
     # lower bound: every normalizer element of weight < d is a product of stabilizers
+    # (when a supplied non-trivial logical is already lighter than d the search stops below its weight)
+    wmax = min(d, lightest if lightest is not None else d) - 1
     for typ, checks, gens in (('X', sz, sx), ('Z', sx, sz)):
-        found, total = light_normalizers(n, checks, d - 1)
+        found, total = light_normalizers(n, checks, wmax)
         evals += total
         rk = gf2_rank(gens)
         for sup in found:
@@ -340,88 +353,92 @@ def check_c07(ctx):
     out = ctx.model('latpt', lines)
     kern = []
     for size, reply in zip(sizes, out):
-        R, C = size
-        code = PlanarCode(R, C)
-        S, X, Z = code.stabilizers, code.logical_xs, code.logical_zs
-        f = reply.split(' ')
-        ok = len(f) == 6
-        if ok:
-            ok &= ctx.cmp(fam + ' n_k_d', {'size': list(size)}, ','.join(str(v) for v in code.n_k_d), f[0])
-            ok &= cmp_matrix(ctx, fam + ' stabilizers', size, S, f[1])
-            ok &= cmp_matrix(ctx, fam + ' logical_xs', size, X, f[2])
-            ok &= cmp_matrix(ctx, fam + ' logical_zs', size, Z, f[3])
-        else:
-            ctx.cmp(fam + ' pcode', {'size': list(size)}, '<6 fields>', reply[:200])
-        if code.label != 'Planar %dx%d' % size or repr(code) != 'PlanarCode(%d, %d)' % size or code.size != size:
-            ctx.violation(fam + '-label', 'label / repr / size do not name the lattice size',
-                          {'family': fam, 'size': list(size), 'label': code.label, 'repr': repr(code)})
-        code_conditions(ctx, fam, size, code, S, X, Z, 0)
-        # flatten is a bijection from the in-bounds sites onto range(n): site('X', s) is one-hot at a distinct place
-        n = int(code.n_k_d[0])
-        seen = {}
-        for s in all_sites(R, C):
-            b = code.new_pauli().site('X', s).to_bsf()
-            nz = np.nonzero(b)[0]
-            if len(b) != 2 * n or len(nz) != 1 or nz[0] >= n or int(nz[0]) in seen:
-                ctx.violation(fam + '-flatten', 'site index -> qubit is not a bijection onto range(n)',
-                              {'family': fam, 'size': list(size), 'site': list(s), 'bsf_nonzero': [int(v) for v in nz],
-                               'clashes_with': seen.get(int(nz[0])) if len(nz) == 1 else None})
-                break
-            seen[int(nz[0])] = list(s)
-        else:
-            if sorted(seen) != list(range(n)):
-                ctx.violation(fam + '-flatten', 'sites do not cover range(n)', {'family': fam, 'size': list(size),
-                                                                                'sites': len(seen), 'n': n})
-        ctx.count((fam, size), R != C or min(R, C) == 2, fam + '-size',
-                  {'family': fam, 'size': list(size), 'n_k_d': list(code.n_k_d), 'stabilizer[0]': hexrow(S[0])}
-                  if size == (2, 3) else None)
-        if n <= 60 and (size in ((2, 2), (2, 5), (4, 3)) or rng.random() < 0.08) and len(kern) < 8:
-            kern.append((size, S, X, Z))
+        def body(size=size, reply=reply):
+            R, C = size
+            code = PlanarCode(R, C)
+            S, X, Z = code.stabilizers, code.logical_xs, code.logical_zs
+            f = reply.split(' ')
+            ok = len(f) == 6
+            if ok:
+                ok &= ctx.cmp(fam + ' n_k_d', {'size': list(size)}, ','.join(str(v) for v in code.n_k_d), f[0])
+                ok &= cmp_matrix(ctx, fam + ' stabilizers', size, S, f[1])
+                ok &= cmp_matrix(ctx, fam + ' logical_xs', size, X, f[2])
+                ok &= cmp_matrix(ctx, fam + ' logical_zs', size, Z, f[3])
+            else:
+                ctx.cmp(fam + ' pcode', {'size': list(size)}, '<6 fields>', reply[:200])
+            if code.label != 'Planar %dx%d' % size or repr(code) != 'PlanarCode(%d, %d)' % size or code.size != size:
+                ctx.violation(fam + '-label', 'label / repr / size do not name the lattice size',
+                              {'family': fam, 'size': list(size), 'label': code.label, 'repr': repr(code)})
+            code_conditions(ctx, fam, size, code, S, X, Z, 0)
+            # flatten is a bijection from the in-bounds sites onto range(n): site('X', s) is one-hot at a distinct place
+            n = int(code.n_k_d[0])
+            seen = {}
+            for s in all_sites(R, C):
+                b = code.new_pauli().site('X', s).to_bsf()
+                nz = np.nonzero(b)[0]
+                if len(b) != 2 * n or len(nz) != 1 or nz[0] >= n or int(nz[0]) in seen:
+                    ctx.violation(fam + '-flatten', 'site index -> qubit is not a bijection onto range(n)',
+                                  {'family': fam, 'size': list(size), 'site': list(s), 'bsf_nonzero': [int(v) for v in nz],
+                                   'clashes_with': seen.get(int(nz[0])) if len(nz) == 1 else None})
+                    break
+                seen[int(nz[0])] = list(s)
+            else:
+                if sorted(seen) != list(range(n)):
+                    ctx.violation(fam + '-flatten', 'sites do not cover range(n)', {'family': fam, 'size': list(size),
+                                                                                    'sites': len(seen), 'n': n})
+            ctx.count((fam, size), R != C or min(R, C) == 2, fam + '-size',
+                      {'family': fam, 'size': list(size), 'n_k_d': list(code.n_k_d), 'stabilizer[0]': hexrow(S[0])}
+                      if size == (2, 3) else None)
+            if n <= 60 and (size in ((2, 2), (2, 5), (4, 3)) or rng.random() < 0.08) and len(kern) < 8:
+                kern.append((size, S, X, Z))
+        guarded(ctx, fam, size, body)
 
     # ---- new_pauli().site / plaquette / operator / to_bsf on every index of every size <= 7 (with a margin) ----
     req, exp = [], []
     for size in sizes_upto(2, 7):
-        R, C = size
-        code = PlanarCode(R, C)
-        n = int(code.n_k_d[0])
-        grid = [(r, c) for r in range(-2, 2 * R + 1) for c in range(-2, 2 * C + 1)]
-        gs = ','.join(idx_s(i) for i in grid)
+        def body(size=size):
+            R, C = size
+            code = PlanarCode(R, C)
+            n = int(code.n_k_d[0])
+            grid = [(r, c) for r in range(-2, 2 * R + 1) for c in range(-2, 2 * C + 1)]
+            gs = ','.join(idx_s(i) for i in grid)
 
-        def call(f):
-            try:
-                return f()
-            except IndexError:
-                return 'E'
-            except Exception as e:  # noqa
-                return 'ERR ' + exc_class(e)
-        for op in 'XYZ':
-            got = [call(lambda: hexrow(code.new_pauli().site(op, i).to_bsf())) for i in grid]
-            req.append('psite %d %d %s %s' % (R, C, op, gs))
-            exp.append((fam + ' site', {'size': list(size), 'op': op}, ','.join(got)))
-        got = [call(lambda: hexrow(code.new_pauli().plaquette(i).to_bsf())) for i in grid]
-        req.append('pplaq %d %d %s' % (R, C, gs))
-        exp.append((fam + ' plaquette', {'size': list(size)}, ','.join(got)))
-        b = np.array([rng.randint(0, 1) for _ in range(2 * n)])
-        p = code.new_pauli(b)
-        got = [call(lambda: p.operator(i)) for i in grid]
-        req.append('pop %d %d %d %s %s' % (R, C, 2 * n, hexrow(b), gs))
-        exp.append((fam + ' operator', {'size': list(size), 'bsf': hexrow(b)}, ','.join(got)))
-        # directly: to_bsf / operator / site agree through the index map
-        if not np.array_equal(p.to_bsf(), b):
-            ctx.violation(fam + '-to_bsf', 'new_pauli(bsf).to_bsf() != bsf', {'family': fam, 'size': list(size), 'bsf': hexrow(b)})
-        for s in all_sites(R, C):
-            one = code.new_pauli().site('X', s).to_bsf()
-            q = int(np.nonzero(one)[0][0]) if one.any() else -1
-            want = 'IXZY'[int(b[q]) + 2 * int(b[n + q])] if 0 <= q < n else '?'
-            if p.operator(s) != want:
-                ctx.violation(fam + '-site-access', 'operator(site) disagrees with the bsf entry that site() toggles',
-                              {'family': fam, 'size': list(size), 'site': list(s), 'bsf': hexrow(b)})
-                break
+            def call(f):
+                try:
+                    return f()
+                except IndexError:
+                    return 'E'
+                except Exception as e:  # noqa
+                    return 'ERR ' + exc_class(e)
             for op in 'XYZ':
-                if code.new_pauli().site(op, s).operator(s) != op:
-                    ctx.violation(fam + '-site-access', 'operator(site) after site(op, site) is not op',
-                                  {'family': fam, 'size': list(size), 'site': list(s), 'op': op})
-        ctx.count((fam, 'pauli', size), R != C or min(R, C) == 2, fam + '-pauli-api', n=5 * len(grid))
+                got = [call(lambda: hexrow(code.new_pauli().site(op, i).to_bsf())) for i in grid]
+                req.append('psite %d %d %s %s' % (R, C, op, gs))
+                exp.append((fam + ' site', {'size': list(size), 'op': op}, ','.join(got)))
+            got = [call(lambda: hexrow(code.new_pauli().plaquette(i).to_bsf())) for i in grid]
+            req.append('pplaq %d %d %s' % (R, C, gs))
+            exp.append((fam + ' plaquette', {'size': list(size)}, ','.join(got)))
+            b = np.array([rng.randint(0, 1) for _ in range(2 * n)])
+            p = code.new_pauli(b)
+            got = [call(lambda: p.operator(i)) for i in grid]
+            req.append('pop %d %d %d %s %s' % (R, C, 2 * n, hexrow(b), gs))
+            exp.append((fam + ' operator', {'size': list(size), 'bsf': hexrow(b)}, ','.join(got)))
+            # directly: to_bsf / operator / site agree through the index map
+            if not np.array_equal(p.to_bsf(), b):
+                ctx.violation(fam + '-to_bsf', 'new_pauli(bsf).to_bsf() != bsf', {'family': fam, 'size': list(size), 'bsf': hexrow(b)})
+            for s in all_sites(R, C):
+                one = code.new_pauli().site('X', s).to_bsf()
+                q = int(np.nonzero(one)[0][0]) if one.any() else -1
+                want = 'IXZY'[int(b[q]) + 2 * int(b[n + q])] if 0 <= q < n else '?'
+                if p.operator(s) != want:
+                    ctx.violation(fam + '-site-access', 'operator(site) disagrees with the bsf entry that site() toggles',
+                                  {'family': fam, 'size': list(size), 'site': list(s), 'bsf': hexrow(b)})
+                    break
+                for op in 'XYZ':
+                    if code.new_pauli().site(op, s).operator(s) != op:
+                        ctx.violation(fam + '-site-access', 'operator(site) after site(op, site) is not op',
+                                      {'family': fam, 'size': list(size), 'site': list(s), 'op': op})
+            ctx.count((fam, 'pauli', size), R != C or min(R, C) == 2, fam + '-pauli-api', n=5 * len(grid))
+        guarded(ctx, fam, size, body)
     out = ctx.model('latpt', req)
     for (fn, inp, impl), m in zip(exp, out):
         if impl != m:
@@ -467,147 +484,149 @@ def check_c15(ctx):
     kern = []
     req, exp = [], []
     for size in sizes_upto(2, smax):
-        R, C = size
-        code = PlanarCode(R, C)
-        n = int(code.n_k_d[0])
-        S = code.stabilizers
-        rep = {'family': fam, 'size': list(size)}
-        real, virt = planar_plaquette_sets(code)
-        inb = set(real)
-        # -- plaquette operators have the documented support; syndrome bit i maps back to plaquette i
-        sites = all_sites(R, C)
-        row_of = {}
-        for p in real:
-            pp = code.new_pauli().plaquette(p)
-            letter = 'Z' if p[0] % 2 == 1 else 'X'
-            nb = {(p[0] - 1, p[1]), (p[0] + 1, p[1]), (p[0], p[1] - 1), (p[0], p[1] + 1)}
-            if any(pp.operator(s) != (letter if s in nb else 'I') for s in sites):
-                ctx.violation(fam + '-plaquette-support', 'plaquette operator does not have the documented support',
-                              dict(rep, plaquette=list(p)))
-            row_of[p] = hexrow(pp.to_bsf())
-        if len(S) != len(real):
-            ctx.violation(fam + '-syndrome-map', 'number of stabilizers != number of plaquettes', rep)
-            continue
-        pidx = []
-        for i in range(len(S)):
-            e = np.zeros(len(S), dtype=int)
-            e[i] = 1
-            got = code.syndrome_to_plaquette_indices(e)
-            g = [tuple(int(v) for v in t) for t in got]
-            if len(g) != 1 or g[0] not in row_of or row_of[g[0]] != hexrow(S[i]):
-                ctx.violation(fam + '-syndrome-map', 'syndrome bit i does not map back to the plaquette of stabilizer i',
-                              dict(rep, bit=i, got=[list(t) for t in g]))
-                pidx.append(None)
-            else:
-                pidx.append(g[0])
-        if None in pidx:
-            continue
-        # -- random syndromes through syndrome_to_plaquette_indices (model comparison)
-        for _ in range(3):
-            syn = np.array([rng.randint(0, 1) for _ in range(len(S))])
-            got = sorted(tuple(int(v) for v in t) for t in code.syndrome_to_plaquette_indices(syn))
-            req.append('psynd %d %d %s' % (R, C, ''.join(str(int(v)) for v in syn)))
-            exp.append((fam + ' syndrome_to_plaquette_indices', dict(rep, syndrome=''.join(str(int(v)) for v in syn)),
-                        ','.join(idx_s(t) for t in got) if got else '-', 'sortidx'))
-            if set(got) != {pidx[i] for i in range(len(S)) if syn[i]}:
-                ctx.violation(fam + '-syndrome-map', 'syndrome_to_plaquette_indices is not the set of flagged plaquettes', rep)
-        # -- virtual plaquettes (model comparison on a margin grid; direct: just outside the nearer boundary)
-        grid = [(r, c) for r in range(-3, 2 * R + 2) for c in range(-3, 2 * C + 2)]
+        def body(size=size):
+            R, C = size
+            code = PlanarCode(R, C)
+            n = int(code.n_k_d[0])
+            S = code.stabilizers
+            rep = {'family': fam, 'size': list(size)}
+            real, virt = planar_plaquette_sets(code)
+            inb = set(real)
+            # -- plaquette operators have the documented support; syndrome bit i maps back to plaquette i
+            sites = all_sites(R, C)
+            row_of = {}
+            for p in real:
+                pp = code.new_pauli().plaquette(p)
+                letter = 'Z' if p[0] % 2 == 1 else 'X'
+                nb = {(p[0] - 1, p[1]), (p[0] + 1, p[1]), (p[0], p[1] - 1), (p[0], p[1] + 1)}
+                if any(pp.operator(s) != (letter if s in nb else 'I') for s in sites):
+                    ctx.violation(fam + '-plaquette-support', 'plaquette operator does not have the documented support',
+                                  dict(rep, plaquette=list(p)))
+                row_of[p] = hexrow(pp.to_bsf())
+            if len(S) != len(real):
+                ctx.violation(fam + '-syndrome-map', 'number of stabilizers != number of plaquettes', rep)
+                return
+            pidx = []
+            for i in range(len(S)):
+                e = np.zeros(len(S), dtype=int)
+                e[i] = 1
+                got = code.syndrome_to_plaquette_indices(e)
+                g = [tuple(int(v) for v in t) for t in got]
+                if len(g) != 1 or g[0] not in row_of or row_of[g[0]] != hexrow(S[i]):
+                    ctx.violation(fam + '-syndrome-map', 'syndrome bit i does not map back to the plaquette of stabilizer i',
+                                  dict(rep, bit=i, got=[list(t) for t in g]))
+                    pidx.append(None)
+                else:
+                    pidx.append(g[0])
+            if None in pidx:
+                return
+            # -- random syndromes through syndrome_to_plaquette_indices (model comparison)
+            for _ in range(3):
+                syn = np.array([rng.randint(0, 1) for _ in range(len(S))])
+                got = sorted(tuple(int(v) for v in t) for t in code.syndrome_to_plaquette_indices(syn))
+                req.append('psynd %d %d %s' % (R, C, ''.join(str(int(v)) for v in syn)))
+                exp.append((fam + ' syndrome_to_plaquette_indices', dict(rep, syndrome=''.join(str(int(v)) for v in syn)),
+                            ','.join(idx_s(t) for t in got) if got else '-', 'sortidx'))
+                if set(got) != {pidx[i] for i in range(len(S)) if syn[i]}:
+                    ctx.violation(fam + '-syndrome-map', 'syndrome_to_plaquette_indices is not the set of flagged plaquettes', rep)
+            # -- virtual plaquettes (model comparison on a margin grid; direct: just outside the nearer boundary)
+            grid = [(r, c) for r in range(-3, 2 * R + 2) for c in range(-3, 2 * C + 2)]
 
-        def vcall(i):
-            try:
-                return idx_s(code.virtual_plaquette_index(i))
-            except IndexError:
-                return 'E'
-        req.append('pvirt %d %d %s' % (R, C, ','.join(idx_s(i) for i in grid)))
-        exp.append((fam + ' virtual_plaquette_index', rep, ','.join(vcall(i) for i in grid), None))
-        for p in real:
-            v = tuple(int(x) for x in code.virtual_plaquette_index(p))
-            if p[0] % 2 == 1:   # primal: north / south, ties to north
-                dn, ds = (p[0] + 1) // 2, (2 * R - 1 - p[0]) // 2
-                want = (-1, p[1]) if dn <= ds else (2 * R - 1, p[1])
-            else:
-                dw, de = (p[1] + 1) // 2, (2 * C - 1 - p[1]) // 2
-                want = (p[0], -1) if dw <= de else (p[0], 2 * C - 1)
-            if v != want:
-                ctx.violation(fam + '-virtual', 'virtual plaquette is not just outside the nearer boundary (ties north/west)',
-                              dict(rep, plaquette=list(p), got=list(v), want=list(want)))
-        # -- all ordered pairs of same-type plaquettes, real and virtual
-        Sx, Sz = S[:, :n].astype(np.int64), S[:, n:].astype(np.int64)
-        for typ in (1, 0):
-            nodes = [p for p in real + virt if p[0] % 2 == typ]
-            pairs = [(a, b) for a in nodes for b in nodes]
-            bsfs, got = [], []
-            for (a, b) in pairs:
+            def vcall(i):
                 try:
-                    pb = code.new_pauli().path(a, b).to_bsf()
+                    return idx_s(code.virtual_plaquette_index(i))
+                except IndexError:
+                    return 'E'
+            req.append('pvirt %d %d %s' % (R, C, ','.join(idx_s(i) for i in grid)))
+            exp.append((fam + ' virtual_plaquette_index', rep, ','.join(vcall(i) for i in grid), None))
+            for p in real:
+                v = tuple(int(x) for x in code.virtual_plaquette_index(p))
+                if p[0] % 2 == 1:   # primal: north / south, ties to north
+                    dn, ds = (p[0] + 1) // 2, (2 * R - 1 - p[0]) // 2
+                    want = (-1, p[1]) if dn <= ds else (2 * R - 1, p[1])
+                else:
+                    dw, de = (p[1] + 1) // 2, (2 * C - 1 - p[1]) // 2
+                    want = (p[0], -1) if dw <= de else (p[0], 2 * C - 1)
+                if v != want:
+                    ctx.violation(fam + '-virtual', 'virtual plaquette is not just outside the nearer boundary (ties north/west)',
+                                  dict(rep, plaquette=list(p), got=list(v), want=list(want)))
+            # -- all ordered pairs of same-type plaquettes, real and virtual
+            Sx, Sz = S[:, :n].astype(np.int64), S[:, n:].astype(np.int64)
+            for typ in (1, 0):
+                nodes = [p for p in real + virt if p[0] % 2 == typ]
+                pairs = [(a, b) for a in nodes for b in nodes]
+                bsfs, got = [], []
+                for (a, b) in pairs:
+                    try:
+                        pb = code.new_pauli().path(a, b).to_bsf()
+                        t = code.translation(a, b)
+                        dist = PlanarMWPMDecoder.distance(code, a, b)
+                        got.append('%s;%d:%d;%d' % (hexrow(pb), t[0], t[1], dist))
+                        bsfs.append(pb)
+                        if not (plain_int_tuple(t) and type(dist) is int):
+                            ctx.violation(fam + '-translation-type', 'translation / distance are not plain ints', dict(rep, a=list(a), b=list(b)))
+                    except Exception as e:  # noqa
+                        got.append('E' if isinstance(e, IndexError) else 'ERR ' + exc_class(e))
+                        bsfs.append(np.zeros(2 * n, dtype=int))
+                        ctx.violation(fam + '-path-raises', 'path/translation/distance raises on a same-type pair',
+                                      dict(rep, a=list(a), b=list(b), error=exc_class(e)))
+                for k0 in range(0, len(pairs), 400):
+                    chunk = pairs[k0:k0 + 400]
+                    req.append('ppath %d %d %s' % (R, C, ','.join(idx_s(a) + '>' + idx_s(b) for a, b in chunk)))
+                    exp.append((fam + ' path;translation;distance', dict(rep, pairs=[[list(a), list(b)] for a, b in chunk]),
+                                ','.join(got[k0:k0 + 400]), 'pairs'))
+                # direct: syndrome of every path (own symplectic product), weight, translation
+                P = np.array(bsfs, dtype=np.int64)
+                syn = (P[:, :n] @ Sz.T + P[:, n:] @ Sx.T) % 2
+                wts = np.count_nonzero(P[:, :n] | P[:, n:], axis=1)
+                for j, (a, b) in enumerate(pairs):
+                    want = np.array([1 if ((pidx[i] == a) != (pidx[i] == b)) else 0 for i in range(len(S))]) \
+                        if (a in inb or b in inb) else np.zeros(len(S), dtype=int)
+                    nontriv = (a[0] != b[0] and a[1] != b[1]) or (a not in inb) or (b not in inb)
+                    ctx.count((fam, size, a, b), nontriv, fam + ('-pair-real' if a in inb and b in inb else '-pair-virtual'),
+                              dict(rep, a=list(a), b=list(b), path=got[j]) if (size, a, b) == ((3, 4), (1, 0), (3, 4)) else None)
+                    if got[j].startswith('E'):
+                        continue
+                    if not np.array_equal(syn[j], want):
+                        ctx.violation(fam + '-path-syndrome', 'path(a,b) does not anticommute with exactly the in-lattice endpoints',
+                                      dict(rep, a=list(a), b=list(b), syndrome=''.join(str(int(v)) for v in syn[j]),
+                                           want=''.join(str(int(v)) for v in want)))
                     t = code.translation(a, b)
-                    dist = PlanarMWPMDecoder.distance(code, a, b)
-                    got.append('%s;%d:%d;%d' % (hexrow(pb), t[0], t[1], dist))
-                    bsfs.append(pb)
-                    if not (plain_int_tuple(t) and type(dist) is int):
-                        ctx.violation(fam + '-translation-type', 'translation / distance are not plain ints', dict(rep, a=list(a), b=list(b)))
-                except Exception as e:  # noqa
-                    got.append('E' if isinstance(e, IndexError) else 'ERR ' + exc_class(e))
-                    bsfs.append(np.zeros(2 * n, dtype=int))
-                    ctx.violation(fam + '-path-raises', 'path/translation/distance raises on a same-type pair',
-                                  dict(rep, a=list(a), b=list(b), error=exc_class(e)))
-            for k0 in range(0, len(pairs), 400):
-                chunk = pairs[k0:k0 + 400]
-                req.append('ppath %d %d %s' % (R, C, ','.join(idx_s(a) + '>' + idx_s(b) for a, b in chunk)))
-                exp.append((fam + ' path;translation;distance', dict(rep, pairs=[[list(a), list(b)] for a, b in chunk]),
-                            ','.join(got[k0:k0 + 400]), 'pairs'))
-            # direct: syndrome of every path (own symplectic product), weight, translation
-            P = np.array(bsfs, dtype=np.int64)
-            syn = (P[:, :n] @ Sz.T + P[:, n:] @ Sx.T) % 2
-            wts = np.count_nonzero(P[:, :n] | P[:, n:], axis=1)
-            for j, (a, b) in enumerate(pairs):
-                want = np.array([1 if ((pidx[i] == a) != (pidx[i] == b)) else 0 for i in range(len(S))]) \
-                    if (a in inb or b in inb) else np.zeros(len(S), dtype=int)
-                nontriv = (a[0] != b[0] and a[1] != b[1]) or (a not in inb) or (b not in inb)
-                ctx.count((fam, size, a, b), nontriv, fam + ('-pair-real' if a in inb and b in inb else '-pair-virtual'),
-                          dict(rep, a=list(a), b=list(b), path=got[j]) if (size, a, b) == ((3, 4), (1, 0), (3, 4)) else None)
-                if got[j].startswith('E'):
-                    continue
-                if not np.array_equal(syn[j], want):
-                    ctx.violation(fam + '-path-syndrome', 'path(a,b) does not anticommute with exactly the in-lattice endpoints',
-                                  dict(rep, a=list(a), b=list(b), syndrome=''.join(str(int(v)) for v in syn[j]),
-                                       want=''.join(str(int(v)) for v in want)))
-                t = code.translation(a, b)
-                t2 = code.translation(b, a)
-                dist = abs(t[0]) + abs(t[1])
-                if a == b and P[j].any():
-                    ctx.violation(fam + '-path-identity', 'path(a,a) is not the identity', dict(rep, a=list(a)))
-                if a in inb and b in inb:
-                    if wts[j] != dist or PlanarMWPMDecoder.distance(code, a, b) != dist:
-                        ctx.violation(fam + '-path-weight', 'weight of path != decoder distance for a real pair',
-                                      dict(rep, a=list(a), b=list(b), weight=int(wts[j]), distance=int(dist)))
-                elif wts[j] > PlanarMWPMDecoder.distance(code, a, b):
-                    ctx.violation(fam + '-path-weight', 'weight of path > decoder distance with a virtual end',
-                                  dict(rep, a=list(a), b=list(b), weight=int(wts[j])))
-                if (abs(t[0]), abs(t[1])) != (abs(t2[0]), abs(t2[1])):
-                    ctx.violation(fam + '-translation-symmetry', 'translation(a,b) and translation(b,a) differ in length',
-                                  dict(rep, a=list(a), b=list(b), ab=list(t), ba=list(t2)))
-                if (a in inb or b in inb) and (a[0] + 2 * t[0], a[1] + 2 * t[1]) != b:
-                    ctx.violation(fam + '-translation-leads', 'translation(a,b) does not lead from a to b',
-                                  dict(rep, a=list(a), b=list(b), translation=list(t)))
-                if a not in inb and b not in inb and tuple(t) != (0, 0):
-                    ctx.violation(fam + '-translation-leads', 'translation between two virtual plaquettes is not (0, 0)',
-                                  dict(rep, a=list(a), b=list(b), translation=list(t)))
-                if n <= 40 and len(kern) < 150 and rng.random() < 0.01:
-                    kern.append((size, a, b, P[j].tolist()))
-        # mixed-type and non-plaquette arguments raise IndexError (model: None)
-        bad = [((1, 0), (0, 1)), ((0, 0), (1, 0)), ((1, 0), (2, 2)), ((0, 1), (1, 2))]
-        got = []
-        for (a, b) in bad:
-            try:
-                code.new_pauli().path(a, b)
-                got.append('accepted')
-            except IndexError:
-                got.append('E')
-            ctx.count((fam, size, a, b, 'bad'), True, fam + '-pair-invalid')
-        req.append('ppath %d %d %s' % (R, C, ','.join(idx_s(a) + '>' + idx_s(b) for a, b in bad)))
-        exp.append((fam + ' path (invalid pair)', rep, ','.join(got), None))
+                    t2 = code.translation(b, a)
+                    dist = abs(t[0]) + abs(t[1])
+                    if a == b and P[j].any():
+                        ctx.violation(fam + '-path-identity', 'path(a,a) is not the identity', dict(rep, a=list(a)))
+                    if a in inb and b in inb:
+                        if wts[j] != dist or PlanarMWPMDecoder.distance(code, a, b) != dist:
+                            ctx.violation(fam + '-path-weight', 'weight of path != decoder distance for a real pair',
+                                          dict(rep, a=list(a), b=list(b), weight=int(wts[j]), distance=int(dist)))
+                    elif wts[j] > PlanarMWPMDecoder.distance(code, a, b):
+                        ctx.violation(fam + '-path-weight', 'weight of path > decoder distance with a virtual end',
+                                      dict(rep, a=list(a), b=list(b), weight=int(wts[j])))
+                    if (abs(t[0]), abs(t[1])) != (abs(t2[0]), abs(t2[1])):
+                        ctx.violation(fam + '-translation-symmetry', 'translation(a,b) and translation(b,a) differ in length',
+                                      dict(rep, a=list(a), b=list(b), ab=list(t), ba=list(t2)))
+                    if (a in inb or b in inb) and (a[0] + 2 * t[0], a[1] + 2 * t[1]) != b:
+                        ctx.violation(fam + '-translation-leads', 'translation(a,b) does not lead from a to b',
+                                      dict(rep, a=list(a), b=list(b), translation=list(t)))
+                    if a not in inb and b not in inb and tuple(t) != (0, 0):
+                        ctx.violation(fam + '-translation-leads', 'translation between two virtual plaquettes is not (0, 0)',
+                                      dict(rep, a=list(a), b=list(b), translation=list(t)))
+                    if n <= 40 and len(kern) < 150 and rng.random() < 0.01:
+                        kern.append((size, a, b, P[j].tolist()))
+            # mixed-type and non-plaquette arguments raise IndexError (model: None)
+            bad = [((1, 0), (0, 1)), ((0, 0), (1, 0)), ((1, 0), (2, 2)), ((0, 1), (1, 2))]
+            got = []
+            for (a, b) in bad:
+                try:
+                    code.new_pauli().path(a, b)
+                    got.append('accepted')
+                except IndexError:
+                    got.append('E')
+                ctx.count((fam, size, a, b, 'bad'), True, fam + '-pair-invalid')
+            req.append('ppath %d %d %s' % (R, C, ','.join(idx_s(a) + '>' + idx_s(b) for a, b in bad)))
+            exp.append((fam + ' path (invalid pair)', rep, ','.join(got), None))
+        guarded(ctx, fam, size, body)
     out = ctx.model('latpt', req)
     for (fn, inp, impl, mode), m in zip(exp, out):
         if mode == 'sortidx':
@@ -652,10 +671,12 @@ def check_c08(ctx):
     lines = ['pcode %d %d' % s for s in sizes]
     out = ctx.model('latpt', lines)
     for size, reply in zip(sizes, out):
-        code = PlanarCode(*size)
-        ctx.cmp(fam + ' n_k_d', {'size': list(size)}, ','.join(str(v) for v in code.n_k_d), reply.split(' ')[0])
-        ev = distance_search(ctx, fam, size, code)
-        d = int(code.n_k_d[2])
-        ctx.count((fam, size), size[0] != size[1] or d >= 3, fam + '-distance', {'family': fam, 'size': list(size), 'n_k_d': list(code.n_k_d),
-                                                                        'supports_enumerated': ev} if size == (3, 4) else None,
-                  n=max(1, ev))
+        def body(size=size, reply=reply):
+            code = PlanarCode(*size)
+            ctx.cmp(fam + ' n_k_d', {'size': list(size)}, ','.join(str(v) for v in code.n_k_d), reply.split(' ')[0])
+            ev = distance_search(ctx, fam, size, code)
+            d = int(code.n_k_d[2])
+            ctx.count((fam, size), size[0] != size[1] or d >= 3, fam + '-distance', {'family': fam, 'size': list(size), 'n_k_d': list(code.n_k_d),
+                                                                            'supports_enumerated': ev} if size == (3, 4) else None,
+                      n=max(1, ev))
+        guarded(ctx, fam, size, body)
